@@ -142,6 +142,8 @@ def engine(extra=None, loop_limit=150):
 
 def _bytes_in(snap):
     def walk(t):
+        if isinstance(t, tuple) and t and t[0] == "sym":
+            return None      # bytes in the description of an unknown value are not the value's bytes
         if isinstance(t, tuple):
             if t and t[0] == "bytes":
                 return t[1]
